@@ -50,6 +50,8 @@ type renderer struct {
 	phys    int      // physical lines emitted so far
 	pending []int    // tags waiting for the next emitted statement line
 	LineOf  map[int]int
+	depth   int  // indentation depth of the statement being rendered
+	noBreak bool // inside a block header: no line breaks (the block indent is measured from the header's last line)
 }
 
 func (l Layout) coin() bool { return l.Rng != nil && l.Rng.Intn(2) == 0 }
@@ -286,6 +288,7 @@ func (r *renderer) funcDef(f *FuncDef, depth int) {
 }
 
 func (r *renderer) stmt(s Stmt, depth int) {
+	r.depth = depth
 	switch v := s.(type) {
 	case Tagged:
 		r.pending = append(r.pending, v.ID)
@@ -316,10 +319,11 @@ func (r *renderer) stmt(s Stmt, depth int) {
 	case Empty:
 		r.emit(depth, r.l.p("；", ";"))
 	case If:
-		r.emit(depth, "如果"+r.osp1()+r.topExpr(v.Cond)+r.l.p("：", ":"))
+		r.emit(depth, "如果"+r.osp1()+r.header(v.Cond)+r.l.p("：", ":"))
 		r.block(v.Then, depth+1)
 		for _, e := range v.Elifs {
-			r.emit(depth, "再如"+r.osp1()+r.topExpr(e.Cond)+r.l.p("：", ":"))
+			r.depth = depth
+			r.emit(depth, "再如"+r.osp1()+r.header(e.Cond)+r.l.p("：", ":"))
 			r.block(e.Body, depth+1)
 		}
 		if v.HasElse {
@@ -327,14 +331,14 @@ func (r *renderer) stmt(s Stmt, depth int) {
 			r.block(v.Else, depth+1)
 		}
 	case While:
-		r.emit(depth, "每当"+r.osp1()+r.topExpr(v.Cond)+r.l.p("：", ":"))
+		r.emit(depth, "每当"+r.osp1()+r.header(v.Cond)+r.l.p("：", ":"))
 		r.block(v.Body, depth+1)
 	case Iter:
 		head := ""
 		if len(v.Names) > 0 {
 			head = "以" + strings.Join(v.Names, "、")
 		}
-		r.emit(depth, head+"遍历"+r.osp1()+r.topExpr(v.Over)+r.l.p("：", ":"))
+		r.emit(depth, head+"遍历"+r.osp1()+r.header(v.Over)+r.l.p("：", ":"))
 		r.block(v.Body, depth+1)
 	case *FuncDef:
 		r.funcDef(v, depth)
@@ -366,6 +370,17 @@ func (r *renderer) classDef(c *ClassDef, depth int) {
 	for _, m := range c.Methods {
 		r.funcDef(m, depth+1)
 	}
+}
+
+// header renders the expression of a block header on one physical line
+func (r *renderer) header(e Expr) string {
+	r.noBreak = true
+	defer func() { r.noBreak = false }()
+	return r.topExpr(e)
+}
+
+func (r *renderer) contIndent(extra int) string {
+	return strings.Repeat(r.l.indent(), r.depth+extra)
 }
 
 // topExpr renders an expression in statement position (no enclosing brackets needed)
@@ -403,11 +418,8 @@ func (r *renderer) callPart(c CallPart) string {
 		for i, a := range c.Args {
 			if i > 0 {
 				s += "、"
-				if r.l.Breaks && r.l.coin() && r.l.Rng.Intn(3) == 0 {
-					s += r.l.eol() + "\t\t\t\t\t\t"
-					if r.l.indent() != "\t" {
-						s = strings.TrimSuffix(s, "\t\t\t\t\t\t") + strings.Repeat("    ", 6)
-					}
+				if r.l.Breaks && !r.noBreak && r.l.coin() && r.l.Rng.Intn(3) == 0 {
+					s += r.l.eol() + r.contIndent(2)
 				}
 			}
 			s += r.argExpr(a)
@@ -554,8 +566,8 @@ func (r *renderer) topExprInBraces(e Expr) string {
 func (r *renderer) bracketList(parts []string) string {
 	open, close := r.l.p("【", "["), r.l.p("】", "]")
 	sep := r.l.p("，", ",")
-	if r.l.Breaks && r.l.coin() {
-		ind := strings.Repeat(r.l.indent(), 7)
+	if r.l.Breaks && !r.noBreak && r.l.coin() {
+		ind := r.contIndent(2)
 		s := open + r.l.eol()
 		for i, p := range parts {
 			s += ind + p
@@ -564,7 +576,7 @@ func (r *renderer) bracketList(parts []string) string {
 			}
 			s += r.l.eol()
 		}
-		return s + close
+		return s + r.contIndent(0) + close
 	}
 	if r.l.ExtraSpace && r.l.coin() {
 		sep += " "
